@@ -133,7 +133,9 @@ def accessors(chk, drv):
         name = rng.choice(sorted(lays))
         eta = lu.eta_grids(shape)
         idx_seed = rng.randrange(1 << 30)
-        hist = rng.choice([None, 'restore', 'restore', 'set'])
+        hist = rng.choice([None, 'restore', 'restore', 'set', 'readers', 'readers'])
+        fig_dim = rng.randrange(nd)
+        fig_idx = rng.randrange(shape[fig_dim])
 
         def body():
             comm = MPI.COMM_WORLD
@@ -149,6 +151,14 @@ def accessors(chk, drv):
                 elif hist == 'set' and others:
                     g.setLayout(others[0])
                     g.setLayout(name)
+                elif hist == 'readers':
+                    # methods that only read the grid (reductions, blocks for figures) may not change what the layout advertises
+                    g._f[:] = 1.0
+                    g.getBlockFromDict({fig_dim: fig_idx}, comm, 0)
+                    g.getBlockFromDict({}, comm, 0)
+                    g.getMin()
+                    g.getMax()
+                    g.getMin(0, fig_dim, fig_idx)
             L = g.getLayout(name)
             r = np.random.RandomState(idx_seed + comm.Get_rank())
             idx = [int(r.randint(0, max(1, s))) for s in L.shape]
@@ -163,6 +173,11 @@ def accessors(chk, drv):
                 out['geteta'] = None
                 out['errors'].append('getEta: %s: %s' % (type(e).__name__, e))
             out['starts'] = tolist(L.starts)
+            out['ends'] = tolist(L.ends)
+            out['shape'] = tolist(L.shape)
+            # the partition as a freshly built handler advertises it (reference for the accessors after a history)
+            L2 = getLayoutHandler(comm, lays, list(nprocs), eta).getLayout(name)
+            out['fresh'] = {'starts': tolist(L2.starts), 'ends': tolist(L2.ends), 'shape': tolist(L2.shape)}
             out['buffer'] = int(h.bufferSize)
             out['sizes'] = {n: int(h.getLayout(n).size) for n in lays}
             return out
@@ -178,6 +193,19 @@ def accessors(chk, drv):
         for o, mo in zip(res.values(), drv.batch(reqs)):
             c = dict(case, coords=o['coords'], idx=o['idx'])
             # --- oracle (no model): accessors agree with the partition
+            now = {'starts': o['starts'], 'ends': o['ends'], 'shape': o['shape']}
+            if now != o['fresh']:
+                chk.fail('C02:layout-changed', 'after the history the layout object advertises another block than a freshly built one', c, o['fresh'], now)
+                continue
+            exp_idx = [list(range(a, b)) for a, b in zip(o['fresh']['starts'], o['fresh']['ends'])]
+            if o['idxvals'] != exp_idx:
+                chk.fail('C02:getGlobalIdxVals', 'getGlobalIdxVals disagrees with the advertised block', c, exp_idx, o['idxvals'])
+                continue
+            out_of_range = [(i, gidx) for i in range(nd) for gidx in o['idxvals'][i] if not 0 <= gidx < shape[ord_[i]]]
+            if out_of_range:
+                chk.fail('C02:getGlobalIdxVals-range', 'getGlobalIdxVals returns an index outside the dimension (position, index) = %s' % (out_of_range[0],),
+                         c, 'indices in [0, %d)' % shape[ord_[out_of_range[0][0]]], out_of_range[0][1])
+                continue
             exp_vals = [[float(eta[ord_[i]][gidx]) for gidx in o['idxvals'][i]] for i in range(nd)]
             exp_glob = [None] * nd
             for i in range(nd):
